@@ -18,6 +18,7 @@ RULE = (
     "run-time select - must equal the snapshot of a twin built from scratch by replaying that recipe alone. An "
     "operation must also return a new object. Non-trivial: >= 3 derivations and >= 2 objects compared; distinct = "
     "canonical operation sequence."
+    ' Directed: a cyclic graph with an independent part; graphs whose selection / entry points leave the whole cycle out are looked at and run before, after and alternating with the receiver.'
     ' Independent of the twin: every derived function-backed node (gates with defaulted inputs included in 60% of the programs) must report per input exactly what the function signature says about the parameter behind it.'
 )
 ASSUMPTIONS = [
@@ -419,6 +420,40 @@ def entry_chain_directed(ctx):
     return ok
 
 
+def cycle_left_out_directed(ctx):
+    """Directed: a graph with a data cycle AND a part that does not depend on it. Graphs derived by select() /
+    with_entrypoint() whose scope leaves the whole cycle out are looked at and run BEFORE the receiver in one family and
+    AFTER it in another (whatever a scope computation keeps on shared structure would be served to the wrong scope)."""
+    from hgmon import loops
+
+    base = loops.counter_loop(3, 0, 2, "route", True)["spec"]
+    spec = {"name": "loopside", "nodes": copy.deepcopy(base["nodes"]) + [
+        {"k": "fn", "name": "side", "params": [{"n": "y"}], "outs": ["side_out"]},
+        {"k": "fn", "name": "side2", "params": [{"n": "side_out"}], "outs": ["side2_out"]},
+    ], "bind": {}}
+    derivations = [[("select", [["side2_out"]])], [("entry", [["side"]])], [("entry", [["side2"]]), ("select", [["side2_out"]])], [("select", [["result"]])]]
+    ok = True
+    for order in ("derived-first", "receiver-first", "alternating"):
+        rt.reset_program()
+        root = build_program(spec).graph
+        case = {"spec": spec, "ops": f"directed cycle-left-out, {order}"}
+        lives = [Live(root, [], "graph")]
+        for recipe in derivations:
+            o = root
+            for op in recipe:
+                o = apply_op(o, *op)
+                ctx.obs["operations"] += 1
+            lives.append(Live(o, list(recipe), "graph"))
+        seq = {"derived-first": lives[1:] + lives[:1] + lives[1:], "receiver-first": lives[:1] + lives[1:] + lives[:1], "alternating": [lives[1], lives[0], lives[2], lives[0], lives[4], lives[3], lives[0]]}[order]
+        for n_, lv in enumerate(seq):
+            ctx.obs["cycle_left_out_checks"] += 1
+            if not compare(ctx, spec, lv, case, f"{order}: object {n_} of the sequence"):
+                ok = False
+                break
+    ctx.case({"directed": "cycle-left-out"}, True)
+    return ok
+
+
 def run(ctx):
     n = 110 if ctx.tier == "quick" else 3200
     core.WARM_P = 0.0
@@ -427,5 +462,6 @@ def run(ctx):
         return
     if ctx.shard[0] == 0:
         entry_chain_directed(ctx)
+        cycle_left_out_directed(ctx)
     for i in range(n):
         history(ctx, i)
